@@ -22,8 +22,11 @@
    requests still to be made, whether Stop will be called): every behaviour of the system under
    every finite environment is a path of [step].
 
-   [f1fix] selects the repaired protocol: suspend() also selects on quit and its callers give up
-   (asyncImport / asyncRemove return ErrTaskAbort, the worker does not re-queue). *)
+   Two switches select between the code as found and the repaired code (commits 423c8aa, 42cbcc9):
+   [f1fix]  suspend() also selects on quit and its callers give up (asyncImport / asyncRemove
+            return ErrTaskAbort, the worker does not re-queue);
+   [nilfix] the task queue is created and the unfinished tasks are re-queued by Start() before
+            the goroutines exist (initTaskChan), not by the worker goroutine itself. *)
 From Coq Require Import List Arith Bool.
 Import ListNotations.
 
@@ -62,7 +65,7 @@ Record state := {
   gh : ghost
 }.
 
-Record cfg := { f1fix : bool; qcap : nat; cap : nat }.   (* 1024; max (MaxWaitingTaskNum+1) #wallets *)
+Record cfg := { f1fix : bool; nilfix : bool; qcap : nat; cap : nat }.   (* 1024; max (MaxWaitingTaskNum+1) #wallets *)
 Definition busy_threshold := 3.                         (* MaxWaitingTaskNum *)
 
 Inductive label :=
@@ -289,15 +292,22 @@ Definition step (c : cfg) (s : state) : list state := map snd (step_l c s).
 
 Definition ghost0 := {| n_ann := 0; n_proc := 0; n_acc := 0; n_fin := 0; n_abort := 0; n_drop := 0 |}.
 
-Definition init_state (blocks : nat) (reqs rst : list task) (stop : bool) : state :=
-  {| hpc := Hsel; kpc := Kinit; spc := Sidle; apc := Aidle; qb := 0; tasks := [];
-     e_blocks := blocks; e_tasks := reqs; e_stop := stop; restart := rst; panicked := false; gh := ghost0 |}.
+(* the state in which Start() returns.  Code as found: the worker goroutine has not yet created
+   the task queue.  Repaired: Start() did it (initTaskChan) before `go worker(h)`. *)
+Definition init_state (nfix : bool) (blocks : nat) (reqs rst : list task) (stop : bool) : state :=
+  if nfix then
+    {| hpc := Hsel; kpc := Ksel; spc := Sidle; apc := Aidle; qb := 0; tasks := rst;
+       e_blocks := blocks; e_tasks := reqs; e_stop := stop; restart := []; panicked := false;
+       gh := g_acc (length rst) ghost0 |}
+  else
+    {| hpc := Hsel; kpc := Kinit; spc := Sidle; apc := Aidle; qb := 0; tasks := [];
+       e_blocks := blocks; e_tasks := reqs; e_stop := stop; restart := rst; panicked := false; gh := ghost0 |}.
 
 (* NewWalletTaskChan(len(wss)): capacity max (MaxWaitingTaskNum+1) (number of wallets) *)
 Definition cfg_ok (c : cfg) : Prop := busy_threshold + 1 <= cap c /\ 1 <= qcap c.
 
 Definition initial (c : cfg) (s : state) : Prop :=
-  exists blocks reqs rst stop, s = init_state blocks reqs rst stop /\ length rst <= cap c.
+  exists blocks reqs rst stop, s = init_state (nilfix c) blocks reqs rst stop /\ length rst <= cap c.
 
 Inductive reachable (c : cfg) : state -> Prop :=
 | reach_init : forall s, initial c s -> reachable c s
